@@ -20,6 +20,9 @@ def wide_spec():
     schemes["oauth"] = {"type": "oauth2", "flow": "accessCode", "authorizationUrl": "https://example.com/a", "tokenUrl": "https://example.com/t",
                         "scopes": {("scope%d" % i): ("description %d" % i) for i in range(7)}}
     defs = {("def%d" % i): {"type": "object", "properties": {("p%d" % j): ({"type": "string", "x-order": 6 - j} if i % 2 else {"type": "string"}) for j in range(7)}, "x-ext-%d" % i: "v"} for i in range(8)}
+    # names whose file name depends on the language options of the generation (a Go file must not end in _test / _linux)
+    defs["record_test"] = {"type": "object", "properties": {"n": {"type": "integer"}}}
+    defs["arch_linux"] = {"type": "object", "properties": {"s": {"type": "string"}}}
     paths = {}
     for i, t in enumerate(tags):
         paths["/%s/{id}" % t] = {"post": {
@@ -142,6 +145,9 @@ def check(run, replay=None):
         others = [o for o in others if "classification" not in o["id"]]
     import concurrent.futures
     # the sequential repetitions of different jobs are independent: one driver process per group of jobs
+    # every driver process starts with a generation under OTHER language options (markdown): what a generation
+    # writes must not depend on what the process generated before
+    gens = sorted(gens, key=lambda g: 0 if "markdown" in g["id"] else 1)
     groups = [gens[0::2], gens[1::2], others[0::2], others[1::2]]
     jobdir = {}
 
@@ -160,7 +166,7 @@ def check(run, replay=None):
     nproc = 2 if quick else 5
     for e in events:
         e["target"] = "cli-t0"          # in-process runs through the CLI command objects, target t0
-    for j in gens[:4] + others[:2] + others[-2:]:
+    for j in (gens if quick else gens[:12]) + others[:2] + others[-2:]:
         for k in range(nproc):
             # same module directory, same target path and same working directory as the in-process runs
             t0 = os.path.join(jobdir[j["id"]], "t0")
